@@ -12,7 +12,7 @@ EXPLANATION = (
     'each name); R14.b nothing else constructs an HttpRequest from a Request and both APIs call that one conversion; R14.c each '
     'endpoint emits exactly one effect, outside any loop; R14.d every builder method of the command API and of the capability '
     'API resolves to the same Request/http_types callees; R14.e every mutating method of crux_http::Request forwards to exactly the same-named '
-    'http_types method and changes nothing else. URL, query and body encoding inside url/http_types is trusted.')
+    'http_types method and changes nothing else. R14.h every builder setter of both APIs changes the request through its mutator on every non-error path, with a value computed from its argument (an argument is never skipped because it is empty or equal to a default). URL, query and body encoding inside url/http_types is trusted.')
 
 HT = 'http_types_red_badger_temporary_fork'
 SIBLINGS = ['header', 'content_type', 'body', 'body_json', 'body_string', 'body_bytes', 'body_form', 'query', 'middleware']
@@ -23,6 +23,7 @@ def check(ctx, rep):
     rep.rule('R14.b', 'one conversion: nothing else builds protocol::HttpRequest from a Request; both APIs call it', floor=2)
     rep.rule('R14.c', 'each endpoint emits exactly one effect, outside any loop', floor=2)
     rep.rule('R14.d', 'sibling builder methods of the two APIs resolve to the same callees', floor=9)
+    rep.rule('R14.h', 'every builder setter puts its argument on the request on every path on which it hands the builder back', floor=18)
     cfgs = ['default'] + (['allfeat'] if ctx.has('allfeat') else [])
     for cfg in cfgs:
         http = ctx.crate(cfg, 'crux_http')
@@ -34,6 +35,7 @@ def check(ctx, rep):
         check_emission(rep, http, cfg)
         check_siblings(rep, http, cfg)
         check_forwarders(rep, http, cfg)
+        check_setters_apply(rep, http, cfg)
     # R14.f: "exactly one request effect" also rests on the command primitives underneath: a request / notification made through the command API
     # puts its effect on the effect channel exactly once (shared with C01 R01.f)
     from rules.props import prims as _prims
@@ -374,6 +376,52 @@ def check_siblings(rep, http, cfg):
         rep.expect('R14.d', ca == cb and ca, key, 'both resolve to %s' % sorted(ca),
                    'builder method `%s` differs between the command API %s and the capability API %s' % (name, sorted(ca), sorted(cb)),
                    site=key + '@' + cfg)
+
+
+# builder setter -> the mutators of the request through which it applies its argument
+SETTER_APPLIES = {
+    'header': ['insert_header', 'append_header'],
+    'content_type': ['set_content_type'],
+    'body': ['set_body'], 'body_json': ['set_body'], 'body_string': ['set_body'], 'body_bytes': ['set_body'], 'body_form': ['set_body'],
+    'query': ['set_query'],
+    'middleware': ['middleware'],
+}
+
+
+def derived_from_param(f, operand, depth=3):
+    """the operand is (computed from) a parameter other than self"""
+    for o in origins(f, operand, through_casts=True, through_clone=True):
+        if o.kind == 'arg' and o.n >= 2:
+            return True
+        if o.kind == 'call' and depth > 0 and any(derived_from_param(f, a, depth - 1) for a in o.term.get('args') or [] if 'l' in a):
+            return True
+    return False
+
+
+def check_setters_apply(rep, http, cfg):
+    """R14.h: what the app says through a builder setter is put on the request whenever the setter hands the builder back: on every
+    path to a return that is not an error return, the request is changed through the setter's mutator (directly, or through a sibling
+    setter / helper that does so on all of its paths), and what is written is computed from the setter's argument"""
+    from rules.common import Summaries
+    sm = Summaries([http])
+    for api, marker in (('command', 'crux_http::command::RequestBuilder'), ('capability', 'crux_http::request_builder::RequestBuilder')):
+        for name, muts in sorted(SETTER_APPLIES.items()):
+            fs = [f for f in http.built if f.name == name and f.kind == 'AssocFn' and marker in f.npath and not f.j.get('exp')]
+            key = '%s|%s|applies' % (api, name)
+            if len(fs) != 1:
+                rep.bad('R14.h', key + '|missing', 'builder setter `%s` of the %s API not found (%d)' % (name, api, len(fs)), site=key + '@' + cfg)
+                continue
+            f = fs[0]
+            pats = ['crux_http::request::Request::' + m for m in muts] + [HT + '::request::Request::' + m for m in muts]
+            sites = sm.sites(f, pats, 'must')
+            errs = [bb for bb, i, s_ in f.stmts('assign') if s_['rv']['k'] == 'agg' and s_['rv'].get('variant') == 'Err' and path_matches(s_['rv'].get('adt'), 'core::result::Result')]
+            errs += [bb for bb, t in f.calls('core::ops::try_trait::FromResidual::from_residual')]
+            always = bool(sites) and not any(r in f.reachable([0], removed_blocks=sites + errs) for r in f.return_blocks())
+            fed = bool(sites) and all(any(derived_from_param(f, a) for a in f.blocks[b]['t'].get('args') or [] if 'l' in a) for b in sites)
+            rep.expect('R14.h', always and fed, key, 'every non-error return passes %s, fed from the argument' % muts,
+                       '%s: the setter can hand the builder back without having put its argument on the request (%s on every successful path: %s; '
+                       'written value computed from the argument: %s) — e.g. an empty body that no longer replaces an earlier one'
+                       % (f.path, '/'.join(muts), always, fed), site=key + '@' + cfg)
 
 
 # methods of http_types::Request that change the request
